@@ -152,19 +152,19 @@ macro_rules! on_shape {
     };
 }
 
-on_shape!(k_view_axis_views_3, 40, check_axis_views([3]));
-on_shape!(k_view_axis_views_2x3, 40, check_axis_views([2, 3]));
-on_shape!(k_view_axis_views_2x1, 40, check_axis_views([2, 1]));
-on_shape!(k_view_axis_views_2x3x2, 40, check_axis_views([2, 3, 2]));
-on_shape!(k_view_axis_views_3x1x2, 40, check_axis_views([3, 1, 2]));
-on_shape!(k_view_axis_views_2x1x2x3, 40, check_axis_views([2, 1, 2, 3]));
+on_shape!(k_view_axis_views_3, 8, check_axis_views([3]));
+on_shape!(k_view_axis_views_2x3, 9, check_axis_views([2, 3]));
+on_shape!(k_view_axis_views_2x1, 8, check_axis_views([2, 1]));
+on_shape!(k_view_axis_views_2x3x2, 15, check_axis_views([2, 3, 2]));
+on_shape!(k_view_axis_views_3x1x2, 9, check_axis_views([3, 1, 2]));
+on_shape!(k_view_axis_views_2x1x2x3, 15, check_axis_views([2, 1, 2, 3]));
 
-on_shape!(k_view_axis_iter_2x3x2, 40, check_axis_iter([2, 3, 2]));
-on_shape!(k_view_axis_iter_4, 40, check_axis_iter([4]));
+on_shape!(k_view_axis_iter_2x3x2, 15, check_axis_iter([2, 3, 2]));
+on_shape!(k_view_axis_iter_4, 8, check_axis_iter([4]));
 
-on_shape!(k_view_sum_3, 40, check_sum([3]));
-on_shape!(k_view_sum_2x3, 40, check_sum([2, 3]));
-on_shape!(k_view_sum_3x2x2, 40, check_sum([3, 2, 2]));
-on_shape!(k_view_sum_2x1x3, 40, check_sum([2, 1, 3]));
+on_shape!(k_view_sum_3, 8, check_sum([3]));
+on_shape!(k_view_sum_2x3, 9, check_sum([2, 3]));
+on_shape!(k_view_sum_3x2x2, 15, check_sum([3, 2, 2]));
+on_shape!(k_view_sum_2x1x3, 9, check_sum([2, 1, 3]));
 
 playback_tests!("view");
